@@ -557,6 +557,12 @@ def explore(ctx, factor, bs):
             form = c01_gen.general_form(rng, big=True)
             form_case(ctx, form, via="xlsx", fallback=rng.choice(["book", "My-Form_1"]), stream="general")
     dom_cases(ctx, ctx.pick(300, 4000) * (1 if factor == 1 else 2))
+    # end-to-end composition (`Pyxv.Convert.convert`, harness/props/e2e.py): the XForm text of the model must equal the
+    # implementation's byte for byte in both modes on every generated fragment form; a difference is a correspondence
+    # mismatch of C01 (reported with the form)
+    from props import e2e
+
+    e2e.e2e_corr(ctx, ctx.pick(300, 3000) * (1 if factor == 1 else 2), big=big)
     tot = ctx.dist.get("model:answered", 0) + ctx.dist.get("model:unsupported", 0)
     ctx.notes["fragment_share"] = {"answered": ctx.dist.get("model:answered", 0), "unsupported": ctx.dist.get("model:unsupported", 0),
                                    "share": round(ctx.dist.get("model:answered", 0) / tot, 4) if tot else None}
